@@ -14,6 +14,7 @@ import (
 	"compress/gzip"
 	"compress/zlib"
 	"fmt"
+	"hash/adler32"
 	"net/http"
 	"net/url"
 	"sort"
@@ -394,6 +395,20 @@ func EdgeSpace(tier string) []Spec {
 			out = append(out, Spec{Space: "edge", Kind: "response", Status: 200, Version: "1.1", Size: 5, Framing: f.framing, Chunking: f.chunking, Trailers: f.trailers, Enc: "none", CT: "text", Extra: 3, Cookies: 1})
 		}
 	}
+	// zlib-wrapped deflate announcing a window smaller than 32 KiB (first byte 0x08 ... 0x68 instead of 0x78)
+	for wbits := 8; wbits <= 14; wbits++ {
+		enc := "deflate-zlib-w" + strconv.Itoa(wbits)
+		for _, size := range []int{1, 300, 5000} {
+			for _, f := range []fr{{"cl", "", 0}, {"chunked", "first1", 0}, {"close", "", 0}} {
+				for _, ct := range []string{"text", "binary"} {
+					out = append(out, Spec{Space: "edge", Kind: "response", Status: 200, Version: "1.1", Size: size, Framing: f.framing, Chunking: f.chunking, Enc: enc, CT: ct})
+				}
+				if f.framing != "close" {
+					out = append(out, Spec{Space: "edge", Kind: "request", Method: "POST", Version: "1.1", Size: size, Framing: f.framing, Chunking: f.chunking, Enc: enc, CT: "text", Query: 1})
+				}
+			}
+		}
+	}
 	// '=' in query values and names, empty names, flags
 	for _, f := range []fr{{"none", "", 0}, {"cl", "", 0}, {"chunked", "whole", 0}} {
 		for _, q := range []int{5, 6} {
@@ -690,6 +705,29 @@ func encodedBody(ct string, n int, enc string) *encoded {
 		w.Write(c.payload)
 		w.Close()
 		e.encoded = b.Bytes()
+	case "deflate-zlib-w8", "deflate-zlib-w9", "deflate-zlib-w10", "deflate-zlib-w11", "deflate-zlib-w12", "deflate-zlib-w13", "deflate-zlib-w14":
+		// RFC 1950 with a window smaller than 32 KiB (compress/zlib always announces 32 KiB, first byte 0x78):
+		// CMF = CINFO<<4 | 8 with CINFO = wbits-8, FLG = the check bits that make CMF*256+FLG a multiple of 31,
+		// a raw deflate stream whose back references stay inside the window (ordinary compression when the whole
+		// payload fits into the window, Huffman coding without matches otherwise), Adler-32 of the payload.
+		wbits, _ := strconv.Atoi(strings.TrimPrefix(enc, "deflate-zlib-w"))
+		cmf := byte(wbits-8)<<4 | 8
+		flg := byte(31 - (uint16(cmf)<<8)%31)
+		if flg == 31 {
+			flg = 0
+		}
+		level := flate.HuffmanOnly
+		if len(c.payload) <= 1<<uint(wbits) {
+			level = flate.DefaultCompression
+		}
+		var b bytes.Buffer
+		b.Write([]byte{cmf, flg})
+		w, _ := flate.NewWriter(&b, level)
+		w.Write(c.payload)
+		w.Close()
+		sum := adler32.Checksum(c.payload)
+		b.Write([]byte{byte(sum >> 24), byte(sum >> 16), byte(sum >> 8), byte(sum)})
+		e.encoded = b.Bytes()
 	case "br":
 		// not brotli (none is available offline) - any byte string stands in for a coding nobody can undo
 		e.encoded = make([]byte, len(c.payload))
@@ -784,6 +822,9 @@ func declaredCE(enc string) string {
 	case "gzip", "gzip-multi", "gzip-badmagic", "gzip-baddata":
 		return "gzip"
 	case "deflate", "deflate-zlib":
+		return "deflate"
+	}
+	if strings.HasPrefix(enc, "deflate-zlib-w") {
 		return "deflate"
 	}
 	return enc
